@@ -309,7 +309,10 @@ func (p *Party) watch(ch *client.Channel) {
 		if err == nil {
 			return
 		}
-		if strings.Contains(err.Error(), "parent") && strings.Contains(err.Error(), "not registered") {
+		// a sub-channel can only be watched once its parent is; the parent's Watch
+		// call may still be on its way (recognised by the error text or, independent
+		// of it, by the channel having a parent: retried for two seconds)
+		if (strings.Contains(err.Error(), "parent") && strings.Contains(err.Error(), "not registered")) || (ch.Parent() != nil && i < 1999) {
 			time.Sleep(time.Millisecond)
 			continue
 		}
